@@ -74,8 +74,8 @@ class World:
                            direction=unit((1.0 + k, 0.5 * tag + 0.1, -1.0)),
                            energy=1e6 * (tag + 1) + k,
                            interaction_type=("cc" if (tag + k) % 2 == 0 else "nc"))
-            p.survival_weight = 0.5 + 0.01 * tag
-            p.interaction_weight = 1e-3 * (k + 1)
+            p.survival_weight = 0.0 if (tag + k) % 5 == 3 else 0.5 + 0.01 * tag
+            p.interaction_weight = 0.0 if (tag + k) % 7 == 5 else 1e-3 * (k + 1)
             parts.append(p)
         if spec.get("tree") == "chain" and len(parts) > 1:
             ev = P.Event(parts[0])
